@@ -12,6 +12,9 @@ META = {
     "level": "Decides, for ALL add/remove/set pairs and all initial lists (element-wise, order and duplicates aside): the combination built by __or__ either is refused by the overlap/replace invariants or changes membership of every element exactly as applying the two changes in sequence; a set — including the empty set — absorbs what precedes it and stays a set when followed by add/remove. Decides that BugUpdate.to_wire emits every field of the dataclass, each under a guard on that field alone, and nothing else but the ids. Does NOT decide order/duplicate preservation inside the lists.",
     "note": "the walk understands the expression forms used in changes.py (tuple +, generator filters with in/not in, ListChange(...) construction, if/return); another form is an analysis error, not a verdict",
 }
+META["technique"] += "; " + "set difference / union / order-preserving de-duplication in the element-membership interpreter; dominator rule on to_wire's returns"
+META["level"] += " Added after the second round of independent changes: " + 'to_wire cannot return before every field had its chance to be emitted.'
+META["technique"] += "; " + 'generic pack G on the anchored files (optional-flag shift, closures outliving a loop iteration, single-pass iterables consumed twice, %-templates built from data, in-place writes to class-level / memoised objects, generators mutating what they yielded, memo keys that are projections)'
 MOD = "pkgcore.bugzilla.changes"
 FIELDS = ("add", "remove", "replace")
 
